@@ -697,6 +697,24 @@ func (e *Env) call(n *ast.CallExpr) *Val {
 			}
 		}
 		return e.errf("typeid: unknown type")
+	case "closurefn": // closurefn(f): identity of the code of closure value f
+		v := e.tr(n.Args[0])
+		fv.g.declareGlobal("clofn", "(declare-fun clofn (Int) Int)")
+		return intVal("(clofn " + v.T + ")")
+	case "closurecap": // closurecap(f, i): address of the i-th captured variable cell of closure f
+		v := e.tr(n.Args[0])
+		i := e.tr(n.Args[1])
+		fv.g.declareGlobal("clobind", "(declare-fun clobind (Int Int) Int)")
+		return intVal("(clobind " + v.T + " " + i.T + ")")
+	case "funcid": // funcid(Name): identity of the named function / anonymous function
+		key := exprText(n.Args[0])
+		if bl, ok := n.Args[0].(*ast.BasicLit); ok && bl.Kind == token.STRING {
+			key, _ = strconv.Unquote(bl.Value)
+		}
+		if _, ok := fv.g.funcsByKey[key]; !ok {
+			return e.errf("funcid: unknown function %s", key)
+		}
+		return intVal(fmt.Sprintf("%d", fv.g.fnID(key)))
 	case "absidx": // absidx(s, j): element of slice s's backing array at ABSOLUTE index j (trigger-friendly)
 		sv, j := e.tr(n.Args[0]), e.tr(n.Args[1])
 		st, ok := sv.Typ.Underlying().(*types.Slice)
